@@ -81,9 +81,13 @@ def check_design_spaces(ctx: Ctx) -> None:
     ok = len(raises) == 1
     if ok:
         conds = [(cg.ast[t].test, v) for t, v in branch_conditions(cg, cg.node_of(raises[0])) if cg.kind[t] == "test"]
-        ok = len(conds) == 1 and conds[0][1] and isinstance(conds[0][0], ast.UnaryOp) and isinstance(conds[0][0].operand, ast.Call) and last_attr(conds[0][0].operand) == "issubset"
+        def _neg(c_):
+            t_, v_ = c_
+            return (t_.operand, not v_) if isinstance(t_, ast.UnaryOp) and isinstance(t_.op, ast.Not) else (t_, v_)
+        conds = [_neg(c_) for c_ in conds]
+        ok = len(conds) == 1 and conds[0][1] is False and isinstance(conds[0][0], ast.Call) and last_attr(conds[0][0]) == "issubset"
         if ok:
-            sub = conds[0][0].operand
+            sub = conds[0][0]
             src = [s for s in stmts_of(g) if isinstance(s, ast.Assign) and dotted(s.targets[0]) == dotted(sub.func.value)]
             dst = [s for s in stmts_of(g) if isinstance(s, ast.Assign) and dotted(s.targets[0]) == dotted(sub.args[0])]
             ok = len(src) == 1 and "all_couplings" in norm_stmt(src[0].value) and len(dst) == 1 and "design_space" in norm_stmt(dst[0].value)
